@@ -20,7 +20,7 @@ LEVEL = 'model_checking'
 ASSUMPTIONS = [
     'floats modelled as exact reals; cost values are finite reals (out-of-box energy is the concrete inf mystic assigns); NaN outside the claim',
     'constraints function: deterministic, idempotent (c(c(x)) = c(x)), maps the strict box into itself - the property\'s own precondition',
-    'penalty >= 0',
+    'the penalty is an arbitrary real-valued uninterpreted function (negative values allowed: barrier / Lagrange penalties)',
     'DE: all random draws of ONE focus candidate per instance are solver variables (every candidate position is an instance); '
     'the other candidates use fixed draws (first available partners, crossover only at the forced index) - their vectors and energies stay symbolic',
     'Powell: Brent line search replaced by its contract (evaluates func(0) and func(alpha) for an arbitrary step length alpha with func(alpha) <= func(0), returns (alpha, func(alpha)))',
